@@ -2,6 +2,7 @@ package main
 
 import (
 	"fmt"
+	"go/token"
 	"sort"
 	"strings"
 
@@ -188,3 +189,65 @@ func needsEntryOutputs(fn *ssa.Function, mu *ssa.MapUpdate) string {
 var _ = fmt.Sprintf
 var _ = sort.Strings
 var _ = strings.Join
+
+// stepIDValues: the values of fn that are the step's ID field: loads of Step.ID, and - in a helper called at <call> - the
+// parameters that receive such a load.
+func stepIDValues(fn *ssa.Function, call *ssa.Call) func(v ssa.Value) bool {
+	params := map[ssa.Value]bool{}
+	if call != nil {
+		for i, a := range call.Call.Args {
+			if f, _ := fieldLoad(a); f == "Step.ID" && i < len(fn.Params) {
+				params[fn.Params[i]] = true
+			}
+		}
+	}
+	return func(v ssa.Value) bool {
+		if params[v] {
+			return true
+		}
+		f, _ := fieldLoad(v)
+		return f == "Step.ID"
+	}
+}
+
+// returnsAvoiding: is a return of fn reachable from its entry without executing one of the instructions in <must> and
+// without taking the nil edge of a nil test on a value for which <exempt> holds? Returns the position of such a return.
+func returnsAvoiding(fn *ssa.Function, must map[ssa.Instruction]bool, exempt func(ssa.Value) bool) (token.Pos, bool) {
+	if len(fn.Blocks) == 0 {
+		return token.NoPos, false
+	}
+	seen := map[*ssa.BasicBlock]bool{}
+	stack := []*ssa.BasicBlock{fn.Blocks[0]}
+	for len(stack) > 0 {
+		b := stack[len(stack)-1]
+		stack = stack[:len(stack)-1]
+		if seen[b] {
+			continue
+		}
+		seen[b] = true
+		blocked := false
+		for _, in := range b.Instrs {
+			if must[in] {
+				blocked = true
+				break
+			}
+		}
+		if blocked {
+			continue
+		}
+		last := b.Instrs[len(b.Instrs)-1]
+		if ret, ok := last.(*ssa.Return); ok {
+			return ret.Pos(), true
+		}
+		skip := -1
+		if v, nilSucc, ok := nilTest(last); ok && exempt != nil && exempt(v) {
+			skip = nilSucc
+		}
+		for i, s := range b.Succs {
+			if i != skip {
+				stack = append(stack, s)
+			}
+		}
+	}
+	return token.NoPos, false
+}
